@@ -10,3 +10,11 @@ META = {
     "technique": 'Coq invariant proof + trace validation + independent recurrence enumeration oracle',
     "design_ref": "5/C07",
 }
+
+# the stop-point clause under the mechanisms that move the runahead limit or queue tasks: future triggers
+# (limit pushed out by the offset, but never beyond the stop point) and hold/release of runahead-limited tasks
+STREAMS.append(SchedStream('C07', name="sched-future-stop", feat={'future': True, 'stop': 'point', 'max_fcp': 6},
+                           n_quick=28, n_thorough=500, extra_oracles=['C04']))
+_QUEUED_BEYOND_STOP = {'custom_rate': 0.7, 'customs': {}, 'disorder': 0.2, 'fail_rate': 0.15, 'fcp': 4, 'icp': 1, 'ops': [{'args': {'tasks': ['4/b', '4/c', '1/c']}, 'cmd': 'hold', 'tick': 0}, {'args': {'cycle_point': '3', 'mode': None}, 'cmd': 'stop', 'tick': 0}, {'args': {'point': '3'}, 'cmd': 'set_hold_point', 'tick': 2}, {'args': {'point': '4'}, 'cmd': 'set_hold_point', 'tick': 5}, {'args': {'tasks': ['4/c']}, 'cmd': 'hold', 'tick': 6}, {'args': {'tasks': ['4/c']}, 'cmd': 'release', 'tick': 6}, {'args': {}, 'cmd': 'release_hold_point', 'tick': 7}, {'args': {'tasks': ['4/c']}, 'cmd': 'release', 'tick': 11}], 'opt': [['a', 'succeeded', False], ['b', 'succeeded', False], ['c', 'succeeded', False]], 'queues': {}, 'runahead': 2, 'sections': [{'lines': [{'lhs': None, 'rhs': 'c'}], 'rec': 'P3'}, {'lines': [{'lhs': None, 'rhs': 'a'}, {'lhs': None, 'rhs': 'b'}, {'lhs': None, 'rhs': 'c'}], 'rec': 'R1/$'}], 'seed': 550938157, 'tasks': ['a', 'b', 'c']}   # fixed finding b754f2a: a queued task beyond a newly set stop point
+STREAMS.append(SchedStream('C07', name="sched-hold-stop", feat={'hold': True, 'stop': 'point'},
+                           n_quick=28, n_thorough=500, extra_oracles=['C04', 'C06'], corpus=[_QUEUED_BEYOND_STOP]))
